@@ -118,6 +118,9 @@ func clip(s string, n int) string {
 	return s
 }
 
+// ReplayHistory re-executes a recorded history counterexample.
+func ReplayHistory(kind string, input json.RawMessage) (bool, string) { return replayHist(kind, input) }
+
 func replayHist(kind string, input json.RawMessage) (bool, string) {
 	var in HistInput
 	if err := json.Unmarshal(input, &in); err != nil {
